@@ -5,7 +5,7 @@ named in the property x the three factorisations; exactly one field of an otherw
 corrupted (wrong rank, length, tree structure, dtype, object type, inadmissible value).  Oracle:
 an exception at construction or first use -- never numbers; documented unsuitable pairings warn
 and name the remedy.  Every recipe also has a control entry (the uncorrupted call must work).
-Both tiers enumerate the table completely (285 entries).
+Both tiers enumerate the table completely (313 entries).
 """
 
 import warnings
@@ -152,6 +152,31 @@ def entries():
             std_bad["ragged_len-1"] = lambda st, tc: [st[0], st[1][:-1], st[2]]
         for lab, tr in std_bad.items():
             add(f"{name}/tcoeffs_std/{lab}", "raise", mk_tc(tr, diffuse=True), name)
+        if name == "isotropic":
+            # non-scalar std leaves, decided at every first use that consumes the std container (reading the initial
+            # law, extrapolating it, solving); state dimension equal to and different from the number of coefficients
+            def mk_std_use(shape_fn, use, d, name=name):
+                def run():
+                    vf, u0, tc = _base(d)
+                    ssm = _ssm(name)
+                    std = [0.01 * jnp.ones(shape_fn(d)) for _ in tc] if shape_fn is not None else _good_std(name, tc)
+                    prior = ssm.prior_wiener_integrated_diffuse(tc, std)
+                    if use == "init_std":
+                        return prior.init.std
+                    if use == "init_cov":
+                        return prior.init.to_multivariate_normal()[1]
+                    if use == "extrapolate":
+                        proto = prior.init.prototype_output_scale_calibrated()
+                        rv = prior.transition(dt=0.1, output_scale=jnp.ones_like(proto)).marginalise(prior.init)
+                        return rv.mean, rv.std
+                    return _use_prior(ssm, prior, vf)
+                return run
+
+            for use in ("init_std", "init_cov", "extrapolate", "solve"):
+                add(f"{name}/tcoeffs_std/{use}/control", "control", mk_std_use(None, use, D), name)
+                for d_ in (2, D):
+                    for slab, sfn in {"(d,)": lambda d: (d,), "(1,)": lambda d: (1,), "(d,1)": lambda d: (d, 1)}.items():
+                        add(f"{name}/tcoeffs_std/{use}/leaf_{slab}_d{d_}", "raise", mk_std_use(sfn, use, d_), name)
 
         # ---------------- transition(): calibrated output scale
         def mk_trans(scale_fn, name=name):
